@@ -699,10 +699,10 @@ inline std::size_t DnsMessage::decodeNameFromRdata(const std::uint8_t *messageDa
       std::uint16_t pointer =
         readUint16(rdata, rdataOffset) & constants::DNS_COMPRESSION_POINTER_MASK;
 
-      // Validate pointer is within message bounds with safety margin for name parsing
-      if (static_cast<std::size_t>(pointer) < messageSize &&
-          (static_cast<std::size_t>(pointer) + 1) <
-            messageSize) // Need at least 1 byte for length field
+      // Validate pointer is within message bounds. One byte at the target is enough: it may be
+      // the root label (a name that is a pointer to the terminating zero octet of another name,
+      // possibly the last byte of the message); decodeName() bounds-checks everything it reads.
+      if (static_cast<std::size_t>(pointer) < messageSize)
       {
         decodeName(messageData, pointer, messageSize, name);
         return rdataOffset + 2; // Compression pointer is 2 bytes
